@@ -160,7 +160,7 @@ Fixpoint acc_add (k : list Z) (d : Z) (m : list (list Z * Z)) : list (list Z * Z
   end.
 
 (* ------------------------------------------------------------------------------------------ *)
-(* bd: BurndownAnalysis (leaves/burndown.go), TrackFiles off.
+(* bd: BurndownAnalysis (leaves/burndown.go).
 
    Fork (burndown.go:404):  clone := *analyser            every field copied by value, i.e.
                                                           scalars become private, maps/slices stay shared
@@ -174,7 +174,8 @@ Fixpoint acc_add (k : list Z) (d : Z) (m : list (list Z * Z)) : list (list Z * Z
             commit before writing to it and never writes to it otherwise, so its content behaves as
             private - checked by the harness),
    shared:  globalHistory, peopleHistories, matrix (accumulators), deletions, renames (bookkeeping),
-            [fileHistories when TrackFiles is on; not modelled]. *)
+            fileHistories (TrackFiles on; only which paths have a history is modelled: that is what
+            handleRename reads). *)
 
 Definition MARK : Z := 16383.                 (* burndown.TreeMergeMark *)
 Definition MAXU32 : Z := 4294967295.
@@ -192,7 +193,9 @@ Record bd_shared : Type := BSh {
   bs_people : list (list Z * Z);      (* (author, curTick, prevTick) -> delta *)
   bs_matrix : list (list Z * Z);      (* (oldAuthor, newAuthor) -> delta *)
   bs_deletions : list Z;
-  bs_renames : list (Z * Z)           (* from -> to; 0 stands for "" (paths are >= 1) *)
+  bs_renames : list (Z * Z);          (* from -> to; 0 stands for "" (paths are >= 1) *)
+  bs_filehist : list Z                (* keys of fileHistories (TrackFiles on); the histories themselves,
+                                         one object per tracked file, are not modelled *)
 }.
 
 Inductive dkind : Type := DEq | DIns | DDel.
@@ -214,6 +217,7 @@ Arguments RPanic {A}.
 
 Section Burndown.
   Variable people : bool.      (* PeopleNumber > 0 *)
+  Variable track : bool.       (* TrackFiles *)
 
   (* packPersonWithTick / unpackPersonWithTick *)
   Definition pack (author tick : Z) : Z :=
@@ -231,13 +235,13 @@ Section Burndown.
       let g := acc_add [ct; pt] delta (bs_global s) in
       if people then
         let pa := unpack_author prev in
-        if pa =? AUTHOR_MISSING then Some (BSh g (bs_people s) (bs_matrix s) (bs_deletions s) (bs_renames s))
+        if pa =? AUTHOR_MISSING then Some (BSh g (bs_people s) (bs_matrix s) (bs_deletions s) (bs_renames s) (bs_filehist s))
         else
           let na := unpack_author cur in
           let na' := if (na =? pa) && (0 <? delta) then AUTHOR_SELF else na in
           Some (BSh g (acc_add [pa; ct; pt] delta (bs_people s)) (acc_add [pa; na'] delta (bs_matrix s))
-                    (bs_deletions s) (bs_renames s))
-      else Some (BSh g (bs_people s) (bs_matrix s) (bs_deletions s) (bs_renames s)).
+                    (bs_deletions s) (bs_renames s) (bs_filehist s))
+      else Some (BSh g (bs_people s) (bs_matrix s) (bs_deletions s) (bs_renames s) (bs_filehist s)).
 
   Fixpoint report_deleted (t : Z) (dl : list Z) (s : bd_shared) : option bd_shared :=
     match dl with
@@ -273,9 +277,11 @@ Section Burndown.
   Definition set_merged (p : bd_priv) (m : list (Z * bool)) : bd_priv :=
     BP (bp_files p) (bp_tick p) (bp_prev_tick p) (bp_merged_author p) m.
   Definition set_deletions (s : bd_shared) (d : list Z) : bd_shared :=
-    BSh (bs_global s) (bs_people s) (bs_matrix s) d (bs_renames s).
+    BSh (bs_global s) (bs_people s) (bs_matrix s) d (bs_renames s) (bs_filehist s).
   Definition set_renames (s : bd_shared) (r : list (Z * Z)) : bd_shared :=
-    BSh (bs_global s) (bs_people s) (bs_matrix s) (bs_deletions s) r.
+    BSh (bs_global s) (bs_people s) (bs_matrix s) (bs_deletions s) r (bs_filehist s).
+  Definition set_filehist (s : bd_shared) (f : list Z) : bd_shared :=
+    BSh (bs_global s) (bs_people s) (bs_matrix s) (bs_deletions s) (bs_renames s) f.
 
   (* handleInsertion: the To blob has [lines] lines or is binary *)
   Definition handle_insertion (author name lines : Z) (bin : bool) (p : bd_priv) (s : bd_shared)
@@ -291,7 +297,8 @@ Section Burndown.
         if (v <? 0) || (MAXU32 <? v) || (MAXU32 <? lines) then RPanic
         else
           let p1 := set_files p (mset name (zrep v lines) (bp_files p)) in
-          let s2 := set_deletions s1 (sdel name (bs_deletions s1)) in
+          let s1' := if track then set_filehist s1 (sadd name (bs_filehist s1)) else s1 in   (* newFile *)
+          let s2 := set_deletions s1' (sdel name (bs_deletions s1')) in
           let p2 := if bp_tick p =? MARK then set_merged p1 (mset name true (bp_merged_files p1)) else p1 in
           ROk (p2, s2)
       end.
@@ -328,21 +335,49 @@ Section Burndown.
         | RErr => RErr
         | ROk (_, s2) =>
           let p1 := set_files p (mdel name (bp_files p)) in
-          let rn := mset name 0 (bs_renames s2) in
-          let s3 := set_renames s2 (renames_walk (Datatypes.S (length rn)) [name] rn) in
+          let s2' := set_filehist s2 (sdel name (bs_filehist s2)) in
+          let rn := mset name 0 (bs_renames s2') in
+          let s3 := set_renames s2' (renames_walk (Datatypes.S (length rn)) [name] rn) in
           let p2 := if bp_tick p =? MARK then set_merged p1 (mset name false (bp_merged_files p1)) else p1 in
           ROk (p2, s3)
         end
     end.
 
-  (* handleRename with TrackFiles off; [from] is known to exist *)
-  Definition handle_rename (from to_ : Z) (a : list Z) (p : bd_priv) (s : bd_shared) : bd_priv * bd_shared :=
-    if from =? to_ then (p, s)
+  (* the walk of handleRename along the shared renames map when the renamed file has no history of its
+     own (a future branch already renamed or deleted it): Some r = the chain ends at r (0 = ""), None = a
+     cycle (then any known path with a history is taken, or a fresh history) *)
+  Fixpoint rename_chain (fuel : nat) (known : list Z) (fr : Z) (nr : option Z) (m : list (Z * Z)) : option Z :=
+    match fuel with
+    | O => Some fr
+    | Datatypes.S f =>
+      match nr with
+      | None => Some fr
+      | Some n =>
+        let nr' := mget n m in
+        let nrv := match nr' with Some x => x | None => 0 end in
+        if existsb (fun k => k =? nrv) known then None
+        else rename_chain f (n :: known) n nr' m
+      end
+    end.
+
+  (* handleRename; [from] is known to exist in files *)
+  Definition handle_rename (from to_ : Z) (a : list Z) (p : bd_priv) (s : bd_shared) : res (bd_priv * bd_shared) :=
+    if from =? to_ then ROk (p, s)
     else
       let p1 := set_files p (mset to_ a (mdel from (bp_files p))) in
       let s1 := set_deletions s (sdel to_ (bs_deletions s)) in
       let p2 := if bp_tick p =? MARK then set_merged p1 (mset from false (bp_merged_files p1)) else p1 in
-      (p2, set_renames s1 (mset from to_ (bs_renames s1))).
+      let fin (s2 : bd_shared) := ROk (p2, set_renames s2 (mset from to_ (bs_renames s2))) in
+      if track then
+        let moved := set_filehist s1 (sadd to_ (sdel from (bs_filehist s1))) in
+        if smem from (bs_filehist s1) then fin moved
+        else if mmem 0 (bs_renames s1) then RPanic                 (* "burndown renames tracking corruption" *)
+        else match rename_chain (Datatypes.S (Datatypes.S (length (bs_renames s1)))) [from] 0
+                                (mget from (bs_renames s1)) (bs_renames s1) with
+             | None => fin moved
+             | Some r => if (r =? 0) || smem r (bs_filehist s1) then fin moved else RErr
+             end
+      else fin s1.
 
   (* the edit loop of handleModification; pending = a non-empty pending edit *)
   Fixpoint apply_diffs (v : Z) (ds : list (dkind * Z)) (pos : Z) (pending : option (dkind * Z))
@@ -388,7 +423,10 @@ Section Burndown.
       match mget from (bp_files p0) with
       | None => handle_insertion author to_ tlines tbin p0 s
       | Some a =>
-        let (p1, s1) := handle_rename from to_ a p0 s in
+        match handle_rename from to_ a p0 s with
+        | RErr => RErr
+        | RPanic => RPanic
+        | ROk (p1, s1) =>
         if negb (Bool.eqb fbin tbin) then
           if fbin then handle_insertion author to_ tlines tbin p1 s1
           else handle_deletion author to_ flines fbin p1 s1
@@ -402,6 +440,7 @@ Section Burndown.
             let p2 := set_files p1 (mset to_ a2 (bp_files p1)) in
             if negb (zlen a2 =? newl) then RErr else ROk (p2, s2)
           end
+        end
       end
     | _ => RErr
     end.
@@ -441,12 +480,12 @@ Section Burndown.
     end.
 
   Definition bd_init_priv : bd_priv := BP [] 0 0 AUTHOR_MISSING [].
-  Definition bd_init_shared : bd_shared := BSh [] [] [] [] [].
+  Definition bd_init_shared : bd_shared := BSh [] [] [] [] [] [].
   Definition bd_init : bstate bd_priv bd_shared := BS [bd_init_priv] bd_init_shared.
   Definition bd_do (a : act bd_op) (bs : bstate bd_priv bd_shared) := do_act _ _ _ _ bd_step a bs.
 End Burndown.
 
-Definition bd_item (people : bool) : Item := MkItem bd_priv bd_shared bd_op bd_out (bd_step people).
+Definition bd_item (people track : bool) : Item := MkItem bd_priv bd_shared bd_op bd_out (bd_step people track).
 
 (* ------------------------------------------------------------------------------------------ *)
 (* rb: one Allocator with its trees (internal/rbtree/rbtree.go).  Allocator.Clone copies storage and
